@@ -458,3 +458,69 @@ Example C14_name_classes_nonvacuous :
   run_cmd NoNorm CValidate false ex_dir SrcNone SrcNone false ([], []) [] [mkObj KTable ex_n_us ex_n_us 2 true]
     = (ORefused, [mkObj KTable ex_n_us ex_n_us 2 true], []).
 Proof. vm_compute. repeat split. Qed.
+
+(** ------------------------------------------------------------------------
+    Round 5 (a): scripts that carry their own BEGIN / COMMIT / ROLLBACK
+    (Dev/DevTxModel.v).  Executor.Replay sends the statements of a migration
+    file one by one, outside any transaction of its own; a transaction the
+    script opened and did not close (its COMMIT comes after a failing
+    statement, or is missing) is still open when the deferred RestoreFunc
+    runs: its VACUUM is refused ("cannot VACUUM from within a transaction"),
+    and when the connection is closed the restore's DELETE is rolled back
+    with the rest.  What was committed before the BEGIN stays in the dev
+    database.
+
+    Full statement (false of the faithful model):
+      forall ss, snd (tx_session ss []) = []
+    -> C14_tx_handed_back_empty_refuted (finding C14-open-transaction), and
+    the exact characterisation C14_tx_handed_back_empty_except. *)
+From Atlas Require Dev.DevTxModel Dev.DevTxProofs.
+
+Theorem C14_tx_handed_back_empty_refuted :
+  exists ss : list DevTxModel.tstmt,
+    DevTxModel.tx_session ss [] =
+      (DevTxModel.TFail 2, [1%N]).
+Proof. exists [DevTxModel.TCreate 1; DevTxModel.TBegin; DevTxModel.TBad; DevTxModel.TCommit]. vm_compute. reflexivity. Qed.
+Print Assumptions C14_tx_handed_back_empty_refuted.
+
+(** exactly when it is handed back empty: no transaction is open when the
+    replay stops, or nothing had been committed before it was opened; in
+    particular every script without a BEGIN (and then the restore completes) *)
+Theorem C14_tx_handed_back_empty_except :
+  forall ss : list DevTxModel.tstmt,
+    (snd (DevTxModel.tx_session ss []) = [] <->
+       (DevTxModel.c_intx (snd (DevTxModel.run_script ss DevTxProofs.conn0)) = false \/
+        DevTxModel.c_file (snd (DevTxModel.run_script ss DevTxProofs.conn0)) = [])) /\
+    (DevTxModel.has_begin ss = false ->
+       snd (DevTxModel.tx_session ss []) = [] /\ fst (DevTxModel.tx_session ss []) <> DevTxModel.TRestoreFail).
+Proof. intros ss. split. - exact (DevTxProofs.tx_empty_iff ss). - exact (DevTxProofs.tx_no_begin_empty ss). Qed.
+Print Assumptions C14_tx_handed_back_empty_except.
+
+(** a non-empty database is refused whatever the script holds, and not touched *)
+Theorem C14_tx_refuse_untouched :
+  forall (ss : list DevTxModel.tstmt) (file : list N),
+    file <> [] -> DevTxModel.tx_session ss file = (DevTxModel.TRefused, file).
+Proof. exact DevTxProofs.tx_refused. Qed.
+Print Assumptions C14_tx_refuse_untouched.
+
+(** the failed restore is reported when nothing else failed (decision of
+    C14_restore_always_runs carried over): all statements succeed, a
+    transaction is left open => the session ends in TRestoreFail *)
+Theorem C14_tx_restore_failure_reported :
+  forall ss : list DevTxModel.tstmt,
+    fst (DevTxModel.run_script ss DevTxProofs.conn0) = None ->
+    DevTxModel.c_intx (snd (DevTxModel.run_script ss DevTxProofs.conn0)) = true ->
+    fst (DevTxModel.tx_session ss []) = DevTxModel.TRestoreFail.
+Proof. exact DevTxProofs.tx_restore_reported. Qed.
+Print Assumptions C14_tx_restore_failure_reported.
+
+Example C14_tx_nonvacuous :
+  (* closed transaction + failure: empty; open one with nothing committed before: empty, restore error;
+     committed table + open transaction: the table stays; no BEGIN: empty *)
+  DevTxModel.tx_session [DevTxModel.TBegin; DevTxModel.TCreate 1; DevTxModel.TCommit; DevTxModel.TBad] [] = (DevTxModel.TFail 3, []) /\
+  DevTxModel.tx_session [DevTxModel.TBegin; DevTxModel.TCreate 1] [] = (DevTxModel.TRestoreFail, []) /\
+  DevTxModel.tx_session [DevTxModel.TCreate 1; DevTxModel.TBegin; DevTxModel.TCreate 2] [] = (DevTxModel.TRestoreFail, [1%N]) /\
+  DevTxModel.tx_session [DevTxModel.TCreate 1; DevTxModel.TCreate 2] [] = (DevTxModel.TOk, []) /\
+  DevTxModel.tx_session [DevTxModel.TBegin] [7%N] = (DevTxModel.TRefused, [7%N]) /\
+  DevTxModel.has_begin [DevTxModel.TCreate 1; DevTxModel.TBad] = false.
+Proof. vm_compute. repeat split. Qed.
